@@ -793,12 +793,39 @@ def r07_2(prog: Program, rep):
                        lines(g, prod.witness(nid, st)) if (nid, st) in prod.at else [])
 
 
+def r07_5(prog: Program, rep):
+    """locked_index (public read-modify-write of the index under its lock): (a) __enter__ releases the lock when reading the index
+    fails (its __exit__ does not run then); (b) in __exit__ the committing close is inside the region whose handler aborts, and the
+    handler re-raises - a failed update is neither left locked nor reported as success."""
+    m = prog.module("dulwich/index.py")
+    en, ex = m.funcs.get("locked_index.__enter__"), m.funcs.get("locked_index.__exit__")
+    if en is None or ex is None:
+        raise AnalysisError("index.locked_index.__enter__/__exit__ not found")
+    g = cfg_of(prog, en)
+    acq = [i for i, n in g.nodes.items() for c in node_calls(n) if callee_name(c) == "GitFile"]
+    ab = [i for i, n in g.nodes.items() for c in node_calls(n) if isinstance(c.func, ast.Attribute) and c.func.attr == "abort"]
+    if not acq:
+        raise AnalysisError("locked_index.__enter__: GitFile acquisition not found")
+    starts = [b for a in acq for b, l in g.succ[a] if l not in EXC_LABELS]
+    bad = must_pass(g, [g.exit_raise], ab, start=starts)
+    rep.ob("R07.5", m.rel, en.qual, "a failure after the lock was taken aborts it before the exception leaves __enter__", bool(ab) and not bad,
+           "reading a damaged index raises out of __enter__ with index.lock held; __exit__ is never called for it, every later writer gets FileLocked", g.nodes[acq[0]].line)
+    hs = [h for h in ast.walk(ex.node) if isinstance(h, ast.ExceptHandler) and any(isinstance(c, ast.Call) and isinstance(c.func, ast.Attribute) and c.func.attr == "abort" for c in ast.walk(h))]
+    swallow = [h for h in hs if not any(isinstance(r, ast.Raise) for r in ast.walk(h))]
+    closes_outside = [c for c in ast.walk(ex.node) if isinstance(c, ast.Call) and isinstance(c.func, ast.Attribute) and c.func.attr == "close"
+                      and not any(isinstance(p_, ast.Try) and any(any(y is c for y in ast.walk(b_)) for b_ in p_.body) for p_ in ast.walk(ex.node))]
+    rep.ob("R07.5", m.rel, ex.qual, "the committing close() is inside the aborting try, and the handler re-raises", bool(hs) and not swallow and not closes_outside,
+           ("the handler swallows the error: a failed index update is reported as success" if swallow else
+            "close() (which commits) sits outside the try: when writing the trailer fails nobody aborts and index.lock stays held"), ex.node.lineno)
+
+
 def run(prog: Program, rep, tier="quick"):
     rep.rule("R07.1a", "acquisition is one os.open(O_CREAT|O_EXCL) on <path>.lock; FileExistsError maps to FileLocked")
     rep.rule("R07.1b", "in close(): flush, fsync (when enabled) and close of the handle dominate the rename")
     rep.rule("R07.1c", "typestate: no unlink of the lock path is reachable after a successful rename "
                        "(never disturbs a lock taken by someone else)")
     rep.rule("R07.1d", "every exceptional path out of close()/abort() has removed the lock or renamed it")
+    rep.rule("R07.5", "locked_index releases its lock on a failed enter, commits inside the aborting try and re-raises")
     rep.rule("R07.4", "WHO-MAY-CATCH: FileLocked is never swallowed outside file.py (a held or stale lock fails the writer)")
     rep.rule("R07.2p", "the path a function holds the lock for is never opened for writing directly in that function (in-place write under the lock)")
     rep.rule("R07.2c", "closing wrappers (SHA1Writer, HashWriter, ...) close the wrapped lock file only on the normal path of close(); using one as a "
@@ -817,6 +844,7 @@ def run(prog: Program, rep, tier="quick"):
     r07_1(prog, rep)
     r07_2(prog, rep)
     r07_4(prog, rep)
+    r07_5(prog, rep)
     from sa.common import alias_guard
     alias_guard(prog, rep, "R07.2", {"GitFile", "_GitFile"})
     rep.floor("R07.1b", 4)
